@@ -778,6 +778,10 @@ class Observer:
             for c in collect_deps(ir)[1]:
                 ctext, cops = self.tracer.trace(lambda: str(c))
                 cw = walk_ops(c)
+                if cw.ill_scoped:
+                    # e.g. extract_subproc leaving a window variable of the caller free in the callee
+                    self.cnt("excluded:callee-ill-scoped")
+                    return
                 cnames = [o[2] for o in cops if o[0] == "g"]
                 if len(cnames) != len(cw.binder):
                     continue
